@@ -68,6 +68,15 @@ def simplify(e):
     if e.k == 'field' and e.a[2] and e.a[0] is not None and e.a[0].k == 'addr':
         # (&x)->f  ==  x.f
         return mk('field', e.a[0].a[0], e.a[1], False, line=e.line)
+    if e.k == 'call' and e.a[0] in ('PyObject_CallMethodObjArgs',
+                                    'PyObject_CallFunctionObjArgs'):
+        # the argument list ends at the first NULL (a NULL optional argument
+        # passed on by a helper ends it early)
+        args = e.a[1]
+        for i_, a_ in enumerate(args):
+            if i_ >= 1 and a_ is not None and a_.k == 'null' and i_ < len(args) - 1:
+                new = mk('call', e.a[0], [cclone(x) for x in args[:i_ + 1]], line=e.line)
+                return new
     if e.k == 'call' and e.a[0] == 'PyBool_FromLong' and len(e.a[1]) == 1:
         v = e.a[1][0]
         if v is not None and v.k == 'const' and isinstance(v.a[0], int):
